@@ -225,6 +225,40 @@ fn run(ctx: &Ctx, out: &mut Out) {
         }
     }
     leg_sorted_deep(ctx, out);
+    // satisfaction at nesting depth 2 (3): all policies with 4..5 (7) nodes over five leaves, one environment
+    {
+        let small = vec![Policy::Trivial, Policy::Unsatisfiable(FailEntropy::ZERO), Policy::Unsatisfiable(FailEntropy::from_byte_array([0x5a; 64])), Policy::After(41), Policy::Key(ks.pk[0])];
+        let mut memo2: Vec<Vec<P>> = vec![vec![], small];
+        let top = ctx.tier.pick(5, 7);
+        for s in 4..=top {
+            // (sizes up to s are built on demand from the five leaves)
+            while memo2.len() <= s {
+                let n = memo2.len();
+                let mut v: Vec<P> = vec![];
+                if n >= 3 {
+                    for a in 1..n - 1 {
+                        let b = n - 1 - a;
+                        for x in &memo2[a] {
+                            for y in &memo2[b] {
+                                v.push(Policy::And { left: Arc::new(x.clone()), right: Arc::new(y.clone()) });
+                                v.push(Policy::Or { left: Arc::new(x.clone()), right: Arc::new(y.clone()) });
+                                v.push(Policy::Threshold(1, vec![x.clone(), y.clone()]));
+                            }
+                        }
+                    }
+                }
+                memo2.push(v);
+            }
+            for chunk in memo2[s].chunks(32) {
+                if !ctx.mine() {
+                    continue;
+                }
+                for p in chunk {
+                    leg_satisfy(ctx, out, p, &ks, &built[..1], &sigs[..1], &mut caches[..1]);
+                }
+            }
+        }
+    }
     let _ = Tier::Quick;
 }
 
